@@ -1,7 +1,7 @@
 //! C06 (layout / history independence), C13 (declared lengths), C15 (append), C16 (EncodeLike).
 
 use crate::common::*;
-use crate::derived::*;
+use universe::derived::*;
 use bitvec::prelude::*;
 use monitor::bridge::{Modelled, OrderInfo};
 use monitor::model::*;
@@ -1216,10 +1216,10 @@ pub fn c16(ctx: &Ctx) {
 		like_dec("(A,) ~ (A',)", &(&x,), &(x,), &mut rep);
 		like_dec("(A,B) ~ (A',B')", &(&x, &s), &(x, s.clone()), &mut rep);
 		like_dec("(A,B,C) ~ ...", &(&x, Box::new(s.clone()), &v8), &(x, s.clone(), v8.clone()), &mut rep);
-		let t18: crate::universe::T18 = gen_of(&mut rng);
+		let t18: universe::T18 = gen_of(&mut rng);
 		let t18r = (&t18.0, &t18.1, &t18.2, &t18.3, &t18.4, &t18.5, &t18.6, &t18.7, &t18.8, &t18.9, &t18.10, &t18.11, &t18.12, &t18.13, &t18.14, &t18.15, &t18.16, &t18.17);
 		like_dec("18-tuple ~ 18-tuple", &t18r, &t18, &mut rep);
-		let t10: crate::universe::T10 = gen_of(&mut rng);
+		let t10: universe::T10 = gen_of(&mut rng);
 		let t10r = (&t10.0, Box::new(t10.1), Rc::new(t10.2), &t10.3, &t10.4, &t10.5, &t10.6, &t10.7, &t10.8, Arc::new(t10.9));
 		like_dec("10-tuple ~ 10-tuple", &t10r, &t10, &mut rep);
 		// compact
